@@ -139,7 +139,8 @@ func (im *Impl) Run(src string) (val string, outcome string) {
 		if err != nil {
 			return "", "COMPILE:" + err.Error()
 		}
-		if len(im.scripts) < 200000 {
+		// finite operation alphabets repeat their sources; enumerations with unique sources must not pile up
+		if len(im.scripts) < 4096 {
 			im.scripts[src] = sc
 		}
 	}
